@@ -3,6 +3,7 @@ package main
 // C16 — util TLV8 container: correspondence with HcModel/Tlv8.lean + direct oracles.
 
 import (
+	"time"
 	"bytes"
 	"fmt"
 	"io"
@@ -319,8 +320,9 @@ func checkC16(c *Ctx) {
 		lines = append(lines, "tlv8 parse "+hx(p.b))
 	}
 	model = c.Model(lines)
+	stuck := 0
 	for i, p := range plive {
-		for variant := 0; variant < 4; variant++ {
+		for variant := 0; variant < 4 && stuck < 2; variant++ {
 			var impl string
 			consumed := 0
 			msg, pan := safely(func() {
@@ -333,7 +335,29 @@ func checkC16(c *Ctx) {
 				case 3:
 					rd = iotest.HalfReader(rd)
 				}
-				cont, err := util.NewTLV8ContainerFromReader(rd)
+				var cont util.Container
+				var err error
+				parsed := make(chan struct{})
+				go func() {
+					defer close(parsed)
+					defer func() {
+						if r := recover(); r != nil {
+							err = fmt.Errorf("panic: %v", r)
+						}
+					}()
+					cont, err = util.NewTLV8ContainerFromReader(rd)
+				}()
+				select {
+				case <-parsed:
+				case <-time.After(5 * time.Second):
+					stuck++
+					impl = "does not return"
+					c.Violate("tlv8 parser does not return on a finite input", p.id, map[string]interface{}{"input": lines[i], "reader": []string{"bytes.Reader", "iotest.OneByteReader", "iotest.DataErrReader", "iotest.HalfReader"}[variant]}, "value or error", "still running after 5 s")
+					return
+				}
+				if err != nil && strings.HasPrefix(err.Error(), "panic: ") {
+					panic(err.Error())
+				}
 				if err != nil {
 					impl = tlvErrClass(err)
 					return
